@@ -1,7 +1,10 @@
 package main
 
 import (
+	"bytes"
 	"strconv"
+
+	kgzip "github.com/klauspost/compress/gzip"
 )
 
 // mutateRecord: structural and byte-level damage to a serialized record
@@ -49,6 +52,26 @@ func genUnmarshalCases(r *rng, n int, emit func(string, ...string), forceOpts fu
 			data = mutateRecord(sub, g.serialize())
 			fault = sub.chance(1, 8)
 			stat("unm-class", "mutated")
+		}
+		if sub.chance(1, 5) {
+			// the same bytes as one gzip member (what the file writer produces), possibly damaged
+			var zb bytes.Buffer
+			zw := kgzip.NewWriter(&zb)
+			_, _ = zw.Write(data)
+			_ = zw.Close()
+			z := zb.Bytes()
+			switch sub.intn(6) {
+			case 0:
+				z = z[:sub.intn(len(z))] // truncated member
+				truth = ""
+			case 1:
+				z = mutate(sub, z)
+				truth = ""
+			case 2:
+				z = append(z, pick(sub, []string{"tail", "\x1f\x8b", "WARC/1.1\r\n"})...)
+			}
+			data = z
+			stat("unm-class2", "gzip")
 		}
 		stat("unm-type", g.rtype)
 		stat("unm-len", strconv.Itoa(len(data)/100*100))
